@@ -21,7 +21,12 @@ ZERO = A.ZERO
 R = T.REF
 
 
+# model parameters that may be CasADi symbols declared as function parameters (C16)
+MAYBE_SYMBOLIC = {"tau", "eta", "kappa", "delta", "phi", "T", "f.rho_crit", "f.v_free", "f.a", "f.C", "f.rho_max"}
+
+
 def setup_engine(interp, c, mode):
+    c.maybe_symbolic = MAYBE_SYMBOLIC
     E, Gl = AbsEngine("E"), AbsEngine("G")
     c.engine_cfg = EngineCfg(E if mode == "explicit" else None, Gl)
     pkg = interp.load_module("sym_metanet")
